@@ -684,6 +684,24 @@ def fold_flag_tests(fn: ast.AST) -> int:
         # (no increment: the merged statement may be followed by another flag test)
             i += 1
     if done:
+        # a generated flag that is computed and tested on the spot: `_t = E; if [not] _t:`
+        for block in list(_blocks(fn)):
+            j = 0
+            while j + 1 < len(block):
+                a, b = block[j], block[j + 1]
+                if isinstance(a, ast.Assign) and len(a.targets) == 1 and isinstance(
+                        a.targets[0], ast.Name) and re.fullmatch(r"_t\d+", a.targets[0].id) and \
+                        isinstance(b, ast.If) and not isinstance(a.value, ast.Constant):
+                    nm = a.targets[0].id
+                    uses = [x for x in _walk_scope(fn) if isinstance(x, ast.Name) and
+                            x.id == nm and isinstance(x.ctx, ast.Load)]
+                    in_test = [x for x in ast.walk(b.test) if isinstance(x, ast.Name) and
+                               x.id == nm]
+                    if len(uses) == 1 and len(in_test) == 1:
+                        b.test = _SubstNames({nm: a.value}).visit(b.test)
+                        del block[j]
+                        continue
+                j += 1
         # flags that are no longer read
         loads = {x.id for x in _walk_scope(fn) if isinstance(x, ast.Name) and
                  isinstance(x.ctx, ast.Load)}
